@@ -132,3 +132,12 @@ CLAIMED["C02"] = (
  "Does not decide that the bytes are the peer's bytes in order (kernel, runtime values) nor arbitrary io.ReadWriter implementations under the adapter.",
  COMMON_NOTE,
  "DESIGN.md section 5 C02")
+
+CLAIMED["C09"] = (
+ "taint -> sanitiser -> sink for caller-controlled integers with clamp (phi) recognition and overflow-prone-guard rejection; must-pass-through pairing of wi and len(data); guard literals on Read",
+ "Static necessary-condition analysis. Decides that in every exported ByteBuffer method caller-controlled integers (int parameters, Slot fields, the result of Claim's user function) are bounded on both sides by "
+ "quantities independent of them (or by a validator whose body is overflow-free comparisons) wherever they reach cursor arithmetic or storage slice bounds, that data is re-sliced to wi after every store to wi on every path, "
+ "that Read returns copied bytes only from a non-empty data[si:ri], and that Consume/Discard shift all cursors above the removed range by one amount. Exception (documented): Reserve. "
+ "Does not decide content/order preservation across memmoves nor the inductive invariant si <= ri <= wi.",
+ COMMON_NOTE,
+ "DESIGN.md section 5 C09")
